@@ -16,9 +16,12 @@ import (
 	"fmt"
 	"io"
 	"os"
+	"os/exec"
 	"path/filepath"
 	"sort"
 	"strings"
+	"sync"
+	"time"
 
 	"go.uber.org/zap"
 	"google.golang.org/grpc"
@@ -583,6 +586,250 @@ func searchOracle(o vh.Opts, r *vh.RNG, rep *vh.Report, g *storeapi.GrpcV1, docs
 	return orc
 }
 
+// ---------------------------------------------------------------- oracle fields.concurrent (child process)
+
+type testStore struct {
+	g    *storeapi.GrpcV1
+	fm   *fracmanager.FracManager
+	dir  string
+	docs []stored
+}
+
+func buildStore(r *vh.RNG, nDocs int) (*testStore, error) {
+	dir, err := os.MkdirTemp("", "verif-c20-")
+	if err != nil {
+		return nil, err
+	}
+	fm := fracmanager.NewFracManager(&fracmanager.Config{FracSize: 1 << 40, TotalSize: 1 << 42, DataDir: dir})
+	if err := fm.Load(context.Background()); err != nil {
+		return nil, err
+	}
+	fm.Start()
+	mp, _ := mappingprovider.New("", mappingprovider.WithMapping(seq.TestMapping))
+	g := storeapi.NewGrpcV1(storeapi.APIConfig{
+		Bulk:   storeapi.BulkConfig{RequestsLimit: consts.DefaultBulkRequestsLimit},
+		Search: storeapi.SearchConfig{WorkersCount: 1, FractionsPerIteration: 1, RequestsLimit: consts.DefaultSearchRequestsLimit, Async: fracmanager.AsyncSearcherConfig{DataDir: filepath.Join(dir, "async")}},
+	}, fm, mp)
+	st := &testStore{g: g, fm: fm, dir: dir}
+	for part := 0; part < 2; part++ {
+		dp := frac.NewDocProvider()
+		for i := 0; i < nDocs/2; i++ {
+			d, keys := genDoc(r)
+			id := seq.ID{MID: seq.MID(1_700_000_000_000 + uint64(len(st.docs))), RID: seq.RID(1000 + uint64(r.Intn(1000)))}
+			st.docs = append(st.docs, stored{id, d, keys})
+			dp.Append(d, nil, id, seq.Tokens("_all_:", "service:c20"))
+		}
+		req := &pb.BulkRequest{Count: int64(dp.DocCount)}
+		req.Docs, req.Metas = dp.Provide()
+		if _, err := g.Bulk(context.Background(), req); err != nil {
+			return nil, err
+		}
+		fm.WaitIdle()
+		if part == 0 {
+			fm.SealForcedForTests()
+			fm.WaitIdle()
+		}
+	}
+	return st, nil
+}
+
+// checkProjection compares one answered entry with the expected projection of the stored document.
+func checkProjection(st *stored, out []byte, fields []string, allow, filtered bool) string {
+	if !filtered {
+		if !bytes.Equal(out, st.doc) {
+			return fmt.Sprintf("fetch without filter returned %q for stored %q", clip(out), clip(st.doc))
+		}
+		return ""
+	}
+	if !json.Valid(out) {
+		return fmt.Sprintf("answer is not valid JSON: %q (stored %q)", clip(out), clip(st.doc))
+	}
+	got, err := topLevel(out)
+	if err != nil {
+		return fmt.Sprintf("answer is not a JSON object: %q", clip(out))
+	}
+	orig, _ := topLevel(st.doc)
+	var want []kv
+	for _, p := range orig {
+		listed := false
+		for _, f := range fields {
+			listed = listed || f == p.key
+		}
+		if listed == allow {
+			want = append(want, p)
+		}
+	}
+	if strings.Join(multiset(got), "\x00") != strings.Join(multiset(want), "\x00") {
+		mode := "except"
+		if allow {
+			mode = "allow"
+		}
+		return fmt.Sprintf("%s %q of %q gave %q", mode, fields, clip(st.doc), clip(out))
+	}
+	return ""
+}
+
+// concurrentChild: several goroutines fetch from the same GrpcV1 at the same time, each with its own field filter
+// (or none), after a few warm-up fetches; every response is checked against its own expected projection.
+func concurrentChild(seed int64, thorough bool) {
+	logger.SetLevel(zap.FatalLevel)
+	r := vh.NewRNG(seed)
+	st, err := buildStore(r.Fork(), 160)
+	if err != nil {
+		fmt.Println("child-error", err)
+		os.Exit(3)
+	}
+	type job struct {
+		fields   []string
+		allow    bool
+		filtered bool
+	}
+	fetch := func(ids []seq.ID, j job) ([][]byte, error) {
+		req := &pb.FetchRequest{}
+		if j.filtered {
+			req.FieldsFilter = &pb.FetchRequest_FieldsFilter{Fields: j.fields, AllowList: j.allow}
+		}
+		for _, id := range ids {
+			req.Ids = append(req.Ids, id.String())
+		}
+		fs := &fakeStream{ctx: context.Background()}
+		if err := st.g.Fetch(req, fs); err != nil {
+			return nil, err
+		}
+		var res [][]byte
+		for _, b := range fs.blocks {
+			res = append(res, append([]byte{}, disk.DocBlock(b).Payload()...))
+		}
+		return res, nil
+	}
+	// warm-up: sequential fetches with and without a filter
+	for i := 0; i < 4; i++ {
+		fetch([]seq.ID{st.docs[i].id}, job{fields: []string{"a"}, allow: i%2 == 0, filtered: i < 3})
+	}
+	workers, iters := 6, 120
+	if thorough {
+		workers, iters = 8, 600
+	}
+	var mu sync.Mutex
+	var firstBad string
+	var total int
+	var wg sync.WaitGroup
+	start := make(chan struct{})
+	for w := 0; w < workers; w++ {
+		wr := r.Fork()
+		wg.Add(1)
+		go func(w int) {
+			defer wg.Done()
+			<-start
+			for it := 0; it < iters; it++ {
+				n := 20 + wr.Intn(60)
+				var ids []seq.ID
+				var sel []*stored
+				seen := map[int]bool{}
+				for len(ids) < n {
+					k := wr.Intn(len(st.docs))
+					if seen[k] {
+						continue
+					}
+					seen[k] = true
+					ids = append(ids, st.docs[k].id)
+					sel = append(sel, &st.docs[k])
+				}
+				j := job{filtered: w%3 != 0, allow: wr.Bool()} // every third worker never sends a filter
+				if j.filtered {
+					base := sel[wr.Intn(len(sel))]
+					for k := 1 + wr.Intn(3); k > 0 && len(base.keys) > 0; k-- {
+						j.fields = append(j.fields, base.keys[wr.Intn(len(base.keys))].name)
+					}
+					j.fields = append(j.fields, []string{"a", "level", "msg", "g7"}[w%4])
+				}
+				out, err := fetch(ids, j)
+				bad := ""
+				switch {
+				case err != nil:
+					bad = "fetch failed: " + err.Error()
+				case len(out) != len(ids):
+					bad = fmt.Sprintf("%d entries for %d ids", len(out), len(ids))
+				}
+				for i := 0; bad == "" && i < len(ids); i++ {
+					if m := checkProjection(sel[i], out[i], j.fields, j.allow, j.filtered); m != "" {
+						bad = fmt.Sprintf("worker %d (filter=%v) entry %d: %s", w, j.filtered, i, m)
+					}
+				}
+				mu.Lock()
+				total++
+				if bad != "" && firstBad == "" {
+					firstBad = bad
+				}
+				mu.Unlock()
+			}
+		}(w)
+	}
+	close(start)
+	wg.Wait()
+	if firstBad != "" {
+		fmt.Println("viol", strings.ReplaceAll(firstBad, "\n", " "))
+	}
+	fmt.Println("done", total)
+	st.fm.Stop()
+	os.RemoveAll(st.dir)
+	os.Exit(0)
+}
+
+func concurrentOracle(o vh.Opts, rep *vh.Report) *vh.Oracle {
+	orc := vh.NewOracle("fields.concurrent", "child process: after sequential warm-up fetches, 6 (thorough: 8) goroutines fetch 20-80 documents each from the same storeapi.GrpcV1 at the same time, 120 (600) times, each with its own field list and mode or with no filter at all (every third worker); every response must be its OWN expected projection (or the stored bytes), no error, process alive - only schedule-independent facts are asserted; non-trivial = all")
+	rounds := o.Pick(2, 5)
+	for k := 0; k < rounds; k++ {
+		seed := o.Seed*1000 + int64(k)
+		ctx, cancel := context.WithTimeout(context.Background(), 5*time.Minute)
+		cmd := exec.CommandContext(ctx, os.Args[0])
+		cmd.Env = append(os.Environ(), fmt.Sprintf("VERIF_C20_CHILD=%d:%s", seed, o.Tier))
+		var so, se bytes.Buffer
+		cmd.Stdout, cmd.Stderr = &so, &se
+		runErr := cmd.Run()
+		timedOut := ctx.Err() != nil
+		cancel()
+		line := fmt.Sprintf("concurrent seed=%d tier=%s", seed, o.Tier)
+		done := false
+		for _, l := range strings.Split(so.String(), "\n") {
+			switch {
+			case strings.HasPrefix(l, "viol "):
+				rep.Violate(vh.Violation{Site: "storeapi/grpc_fetch.go:doFetch", Class: "concurrent-fetch-wrong-projection", What: strings.TrimPrefix(l, "viol "), Replay: []string{line}})
+			case strings.HasPrefix(l, "done "):
+				done = true
+				var n int
+				fmt.Sscanf(l, "done %d", &n)
+				for i := 0; i < n; i++ {
+					orc.Cases++
+				}
+				orc.Nontrivial += n
+			case strings.HasPrefix(l, "child-error"):
+				orc.Error = l
+			}
+		}
+		orc.Distribution["rounds"]++
+		if len(orc.Samples) < 2 {
+			orc.Samples = append(orc.Samples, line)
+		}
+		if !done && orc.Error == "" {
+			what := "the store process died during concurrent fetches"
+			class := "concurrent-fetch-process-died"
+			if timedOut {
+				what, class = "concurrent fetches did not finish within 5 minutes", "concurrent-fetch-hang"
+			}
+			first := ""
+			for _, l := range strings.Split(se.String(), "\n") {
+				if strings.HasPrefix(l, "panic:") || strings.HasPrefix(l, "fatal error:") {
+					first = l
+					break
+				}
+			}
+			rep.Violate(vh.Violation{Site: "storeapi/grpc_fetch.go:doFetch", Class: class, What: fmt.Sprintf("%s: %s (%v)", what, first, runErr), Replay: []string{line}})
+		}
+	}
+	return orc
+}
+
 func fetchOracle(o vh.Opts, r *vh.RNG, rep *vh.Report) *vh.Oracle {
 	orc := vh.NewOracle("fields.fetch", "real storeapi.GrpcV1.Fetch with FieldsFilter over stored generated JSON objects (all value types, nesting, escapes, unicode, number notations, empty object, up to 26 fields) x field lists (present, absent, all, none, repeated) x allow/except, sealed and active fractions: every answer valid JSON, an object with exactly the expected top-level (name, value) multiset (values compared after json.Compact), not-found entries and the sequence of IDs as in the fetch without filter; non-trivial = at least one field kept and one removed in some document")
 	dir, err := os.MkdirTemp("", "verif-c20-")
@@ -814,6 +1061,16 @@ func clip(b []byte) string {
 }
 
 func main() {
+	if c := os.Getenv("VERIF_C20_CHILD"); c != "" {
+		var seed int64
+		var tier string
+		if i := strings.IndexByte(c, ':'); i > 0 {
+			fmt.Sscanf(c[:i], "%d", &seed)
+			tier = c[i+1:]
+		}
+		concurrentChild(seed, tier == "thorough")
+		return
+	}
 	o := vh.ParseFlags()
 	logger.SetLevel(zap.FatalLevel)
 	rep := vh.NewReport("C20", o)
@@ -826,6 +1083,15 @@ func main() {
 			os.Exit(3)
 		}
 		for _, l := range lines {
+			if strings.HasPrefix(l, "concurrent seed=") {
+				var cs int64
+				var tier string
+				fmt.Sscanf(l, "concurrent seed=%d tier=%s", &cs, &tier)
+				oo := o
+				oo.Seed, oo.Tier = cs/1000, tier
+				rep.AddOracle(concurrentOracle(oo, rep))
+				break
+			}
 			var seed int64
 			var q int
 			_, err := fmt.Sscanf(l, "fetch seed=%d req=%d", &seed, &q)
@@ -854,6 +1120,9 @@ func main() {
 	}
 	if run("fields.fetch") {
 		rep.AddOracle(fetchOracle(o, r3, rep))
+	}
+	if run("fields.concurrent") {
+		rep.AddOracle(concurrentOracle(o, rep))
 	}
 	rep.Write(o.Out)
 }
